@@ -7,7 +7,9 @@
     * `dQIdx/dQPoint`, `dPIdx/dPPoint`, `hderWiring/hderPoint`
                                   — the same for `_eval_dH_dQ`, `_eval_dH_dP` (through the real `_construct_6d_eval_point`
                                     and the live `Q_POLY_INDICES`/`P_POLY_INDICES`) and `_eval_hamiltonian_derivative`;
-    * `*_gen`, `*_ham`            — canonical traces of every straight-line twin pair of `integrators/rk.py`.
+    * `*_gen`, `*_ham`            — canonical traces of every straight-line twin pair of `integrators/rk.py` (stepping kernels,
+                                    fixed-grid drivers, fixed-step event drivers, DOP853 dense-cache builders and in-step
+                                    refinement) run on symbolic data with one recording vector field / event function.
   The polynomial model (`Core/C17.lean`: monomial lists, `Poly.eval`, `Poly.diff`, `jacobian`) is tied to
   `_polynomial_evaluate` / `_polynomial_jacobian` by the exact correspondence run of `harness/props/c17.py`.
   `Lemmas/C17.lean` identifies the model with Mathlib's `MvPolynomial ℕ R` (`toMv`), `Poly.eval` with `MvPolynomial.eval`
@@ -15,6 +17,7 @@
 -/
 import HitenModel.Gen.C17
 import HitenModel.Lemmas.C17
+import HitenModel.Lemmas.C17Real
 
 namespace HitenModel.Props.C17
 open HitenModel HitenModel.C17 MvPolynomial
@@ -34,8 +37,7 @@ theorem rhsSrc_id (j : ℕ) : Gen.C17.rhsSrc[j]?.getD j = j := by
 theorem rhs_is_hamilton (H : Poly R) (z : ℕ → R) :
     rhsBy Gen.C17.rhsWiring Gen.C17.rhsSrc (jacobian Gen.C17.nVars H) z =
       [dH H 3 z, dH H 4 z, dH H 5 z, -dH H 0 z, -dH H 1 z, -dH H 2 z] := by
-  have hs : (fun j => z (Gen.C17.rhsSrc.getD j j)) = z := by funext j; simp [rhsSrc_id]
-  simp [rhsBy, hs, Gen.C17.rhsWiring, Gen.C17.nVars, jacobian_getD, applySign, eval_diff, dH]
+  simp [rhsBy, rhsSrc_id, Gen.C17.rhsWiring, Gen.C17.nVars, jacobian_getD, applySign, eval_diff, dH]
 
 /-- the evaluation point built by `_construct_6d_eval_point` from `(Q, P)` is the state `Q ++ P` -/
 theorem point_is_state (q0 q1 q2 p0 p1 p2 : R) :
@@ -89,9 +91,22 @@ end Rhs
 theorem rhs_complex_coefficients (H : Poly ℂ) (z : ℕ → ℝ) :
     (rhsBy Gen.C17.rhsWiring Gen.C17.rhsSrc (jacobian Gen.C17.nVars H) (fun j => (z j : ℂ))).map Complex.re =
       rhsBy Gen.C17.rhsWiring Gen.C17.rhsSrc (jacobian Gen.C17.nVars (reP H)) z := by
-  have hs : ∀ w : ℕ → ℂ, (fun j => w (Gen.C17.rhsSrc.getD j j)) = w := by intro w; funext j; simp [rhsSrc_id]
-  have hs' : (fun j => z (Gen.C17.rhsSrc.getD j j)) = z := by funext j; simp [rhsSrc_id]
-  simp [rhsBy, hs, hs', Gen.C17.rhsWiring, Gen.C17.nVars, jacobian_getD, applySign, re_eval, reP_diff]
+  simp [rhsBy, rhsSrc_id, Gen.C17.rhsWiring, Gen.C17.nVars, jacobian_getD, applySign, re_eval, reP_diff]
+
+/-- **Hamilton's equations, analytically.** Over ℝ the quantity `dH H i z` of `rhs_is_hamilton` is the partial derivative of
+    the polynomial *function* `z ↦ H(z)` with respect to coordinate `i`: `q̇ᵢ = ∂H/∂pᵢ`, `ṗᵢ = −∂H/∂qᵢ` in the classical sense. -/
+theorem dH_is_partial_derivative (H : Poly ℝ) (z : ℕ → ℝ) (i : ℕ) :
+    HasDerivAt (fun s => Poly.eval (Function.update z i s) H) (dH H i z) (z i) := by
+  have h := eval_hasDerivAt H z i
+  rwa [eval_diff] at h
+
+/-- non-vacuity: `H = 3·q₀²·p₀ − 2·q₁·q₂·p₂` at `(1,2,3,½,1,−1)` gives `q̇₀ = ∂H/∂p₀ = 3`, `ṗ₀ = −∂H/∂q₀ = −3` -/
+example : rhsBy Gen.C17.rhsWiring Gen.C17.rhsSrc
+    (jacobian Gen.C17.nVars ([⟨3, [2, 0, 0, 1, 0, 0]⟩, ⟨-2, [0, 1, 1, 0, 0, 1]⟩] : Poly ℚ))
+    (fun j => ([1, 2, 3, 1/2, 1, -1] : List ℚ).getD j 0) = [3, 0, -12, -3, -6, -4] := by
+  simp [rhsBy, Gen.C17.rhsWiring, Gen.C17.rhsSrc, Gen.C17.nVars, jacobian, Poly.diff, Mono.diff, decAt, applySign,
+    Poly.eval, Mono.eval, monoVal, pw, List.range, List.range.loop]
+  norm_num
 
 /-! ## Sentence 2: a driver sees the vector field only through its values -/
 
@@ -158,6 +173,17 @@ theorem fixed_driver_twins_equal :
 
 theorem dense_cache_twins_equal : Gen.C17.dense_dop853_ham = Gen.C17.dense_dop853_gen := by decide +kernel
 
+/-- fixed-step event drivers: same event-function queries, same arguments handed to the (shared) Hermite refinement,
+    same outputs -/
+theorem event_driver_twins_equal :
+    Gen.C17.event_fixed4_ham = Gen.C17.event_fixed4_gen ∧ Gen.C17.event_fixed6_ham = Gen.C17.event_fixed6_gen ∧
+    Gen.C17.event_fixed8_ham = Gen.C17.event_fixed8_gen := by
+  refine ⟨?_, ?_, ?_⟩ <;> decide +kernel
+
+/-- DOP853 in-step refinement (the Hamiltonian copy inlines the dense-cache construction): same extra stages, same
+    bisection queries of the event function, same hit -/
+theorem refine_twins_equal : Gen.C17.refine_dop853_ham = Gen.C17.refine_dop853_gen := by decide +kernel
+
 /-- the twins issue the same number of distinct vector-field queries -/
 theorem twin_query_counts :
     Gen.C17.step_fixed4_queries = (4, 4) ∧ Gen.C17.step_fixed6_queries = (7, 7) ∧ Gen.C17.step_fixed8_queries = (13, 13) ∧
@@ -165,7 +191,10 @@ theorem twin_query_counts :
     Gen.C17.driver_fixed4_queries.1 = Gen.C17.driver_fixed4_queries.2 ∧
     Gen.C17.driver_fixed6_queries.1 = Gen.C17.driver_fixed6_queries.2 ∧
     Gen.C17.driver_fixed8_queries.1 = Gen.C17.driver_fixed8_queries.2 ∧
-    Gen.C17.dense_dop853_queries = (3, 3) := by
-  refine ⟨?_, ?_, ?_, ?_, ?_, ?_, ?_, ?_, ?_⟩ <;> decide
+    Gen.C17.dense_dop853_queries = (3, 3) ∧ Gen.C17.refine_dop853_queries = (3, 3) ∧
+    Gen.C17.event_fixed4_queries.1 = Gen.C17.event_fixed4_queries.2 ∧
+    Gen.C17.event_fixed6_queries.1 = Gen.C17.event_fixed6_queries.2 ∧
+    Gen.C17.event_fixed8_queries.1 = Gen.C17.event_fixed8_queries.2 := by
+  refine ⟨?_, ?_, ?_, ?_, ?_, ?_, ?_, ?_, ?_, ?_, ?_, ?_, ?_⟩ <;> decide
 
 end HitenModel.Props.C17
